@@ -63,6 +63,24 @@ def param_mutations(funcs):
     return {q: {k: v for k, v in r.items() if k != "__returns__"} for q, r in result.items()}
 
 
+def return_aliases(funcs):
+    """{qualname: [parameters whose object the return value may be / hold]} (the `__returns__` part of the fixpoint above)"""
+    by_name = {}
+    for q, f in funcs.items():
+        by_name.setdefault(q.split(".")[-1], []).append(q)
+    result = {q: {} for q in funcs}
+    for _ in range(6):
+        changed = False
+        for q, f in funcs.items():
+            found = _scan(q, f, funcs, by_name, result)
+            if found.get("__returns__") != result[q].get("__returns__") or set(found) != set(result[q]):
+                result[q] = found
+                changed = True
+        if not changed:
+            break
+    return {q: list(r.get("__returns__", [])) for q, r in result.items()}
+
+
 _ESCAPES = {}
 
 
@@ -105,7 +123,10 @@ def _scan(q, f, funcs, by_name, result):
         al[name] = set(pr[0])
         al["*" + name] = set(pr[1])
 
-    def hold(al, target_value, pr):
+    def hold(al, target_value, pr, target=None):
+        # a store with a multi-dimensional index (`a.coord[:, :, 0] = v`) is NumPy's: the values are copied in, nothing is held
+        if isinstance(target, ast.Subscript) and isinstance(target.slice, ast.Tuple):
+            return
         b = _alias.base_name(target_value)
         b = b.split(".")[0] if b else b
         if b is not None and (pr[0] or pr[1]):
@@ -214,7 +235,7 @@ def _scan(q, f, funcs, by_name, result):
             elif isinstance(b, ast.Name) and b.id in ps[:1]:
                 hit(R2(t.value, al)[0], line, what)
         if value_pr is not None:
-            hold(al, t.value, value_pr)
+            hold(al, t.value, value_pr, t)
 
     def bind_target(t, pr, al):
         if isinstance(t, ast.Name):
@@ -263,7 +284,7 @@ def _scan(q, f, funcs, by_name, result):
                         if isinstance(b, ast.Name) and not (isinstance(t, ast.Attribute) and b.id in ("self", "cls")):
                             hit(R2(t.value, al)[0], st.lineno, "store into " + ast.unparse(t)[:30])
                         note_escape(t, new, st.lineno)
-                        hold(al, t.value, new)          # the container / object now holds the value: `box[0] = p`
+                        hold(al, t.value, new, t)          # the container / object now holds the value: `box[0] = p`
                     elif isinstance(t, (ast.Tuple, ast.List)):
                         for x in t.elts:
                             if isinstance(x, (ast.Subscript, ast.Attribute)):
